@@ -85,7 +85,9 @@ func validateFragmentSpreads(doc *ast.Document, s *schema.Schema, features schem
 		encountered := map[string]struct{}{}
 		cycleFound := false
 		for i := 0; i < len(toVisit) && !cycleFound; i++ {
+			verifCount(verifSiteCycleOuter)
 			for dep := range directFragmentDependencies[toVisit[i]] {
+				verifCount(verifSiteCycleInner)
 				if _, ok := encountered[dep]; !ok {
 					if dep == name {
 						cycleFound = true
